@@ -935,9 +935,9 @@ def mon_C16(case):
                 continue
             # configuration the state dump does not show (sketch seeds/masks, doorkeeper geometry): identical in a clone
             geo = l.named.get("geo")
-            env0 = next((e.lhs.replace(" ", ",") for e in case.env if e.lhs.startswith("env ")), None)
-            if geo is not None and env0 is not None and geo != env0:
-                fails.append(Fail(case, i, "clone is configured differently from the original: clone %s, original %s" % (geo, env0)))
+            geo0 = l.named.get("geoo")
+            if geo is not None and geo0 is not None and geo != geo0:
+                fails.append(Fail(case, i, "clone is configured differently from the original: clone %s, original %s" % (geo, geo0)))
             got = (l.pos[0] if l.pos else None, l.named.get("sz"))
             if last is not None and got != last:
                 fails.append(Fail(case, i, "clone differs from the original: clone %s, original %s" % (got, last)))
